@@ -50,11 +50,15 @@ def run_check(pid, a):
     mod.init_worker()
     known = runner.known_fingerprints(pid)
     spot = [s for s in seeds[:: max(1, len(seeds) // 6)] if s in digests][:6]
+    irreproducible = None
     for s in spot:
         r = mod.run_case(s, tier=a.tier, known=known)
         if r["digest"] != digests[s]:
-            print(f"HARNESS-ERROR seed {s} is not reproducible: digest {digests[s]} in worker, {r['digest']} in parent")
-            return 2
+            irreproducible = f"seed {s} is not reproducible: digest {digests[s]} in worker, {r['digest']} in parent"
+            break
+    if irreproducible and not bad:
+        print("HARNESS-ERROR " + irreproducible)
+        return 2
 
     # violations: one minimised replay per distinct fingerprint
     by_fp = {}
@@ -68,21 +72,13 @@ def run_check(pid, a):
         case = {"seed": b["seed"], "world": b["world"], "ops": b["ops"]}
         if "extra" in b:
             case["extra"] = b["extra"]
-        small, tries = runner.minimise(mod, case, fp, budget_s=45 if a.tier == "quick" else 120, known=known)
-        if small is None:
-            print(f"HARNESS-ERROR violation {fp} of seed {b['seed']} did not reproduce in the parent process")
+        got = _shrink_and_verify(pid, mod, case, fp, known, a, b, by_fp)
+        if got is None:
+            print(f"HARNESS-ERROR violation {fp} of seed {b['seed']} could not be reproduced from a replay file "
+                  f"(neither alone nor after the histories that preceded it in its worker process)")
             harness_problem = True
             continue
-        small["seed"] = b["seed"]
-        r = mod.run_case(b["seed"], case=small, known=known)
-        vv = [x for x in r["violations"] if x["fingerprint"] == fp][0]
-        path = runner.write_replay(pid, small, vv, b["seed"], r["digest"])
-        ok, out = runner.fresh_replay(pid, path)
-        if not ok:
-            print(f"HARNESS-ERROR replay {path} did not reproduce in a fresh interpreter:\n{out}")
-            harness_problem = True
-            continue
-        reported.append((fp, path, vv, len(by_fp[fp]), tries))
+        reported.append(got)
 
     wall = time.time() - t0
     # known findings that fired
@@ -115,6 +111,57 @@ def run_check(pid, a):
     if harness_problem:
         return 2
     return 0
+
+
+def _shrink_and_verify(pid, mod, case, fp, known, a, b, by_fp):
+    """Minimise, write the replay file and re-verify it in a fresh interpreter. Three stages, the later
+    ones only when the code under test keeps state between histories (which makes a history's outcome depend on
+    what the process ran before): in-process ddmin -> fresh-process ddmin -> fresh-process ddmin with the
+    histories that preceded the failing one in its worker."""
+    budget = 45 if a.tier == "quick" else 120
+    small, tries = runner.minimise(mod, case, fp, budget_s=budget, known=known)
+    if small is not None:
+        small["seed"] = b["seed"]
+        r = mod.run_case(b["seed"], case=small, known=known)
+        vv = [x for x in r["violations"] if x["fingerprint"] == fp]
+        if vv:
+            path = runner.write_replay(pid, small, vv[0], b["seed"], r["digest"])
+            ok, out = runner.fresh_replay(pid, path)
+            if ok:
+                return (fp, path, vv[0], len(by_fp[fp]), tries)
+            os.remove(path)
+    v0 = [x for x in b["violations"] if x["fingerprint"] == fp][0]
+    for stage, pre in (("alone", None), ("session", b.get("pre_seeds") or None)):
+        if stage == "session" and not pre:
+            continue
+        c = dict(case)
+        if pre:
+            c["pre_seeds"] = pre
+            c["tier"] = a.tier
+        small, t2 = runner.minimise_fresh(mod, pid, c, fp, budget_s=2 * budget, nproc=a.nproc)
+        tries += t2
+        if small is None:
+            continue
+        small["seed"] = b["seed"]
+        path = runner.write_replay(pid, small, {**v0, "detail": v0["detail"] + " [state kept between histories: replay verified in fresh interpreters only]"},
+                                   b["seed"], None)
+        # record the digest of a fresh execution so that --strict-digest has something to compare with
+        import json as _json
+        import subprocess as _sp
+        import sys as _sys
+        p = _sp.run([_sys.executable, os.path.join(VERIF_DIR, "check"), pid, "--replay", path], capture_output=True, text=True)
+        dg = [ln.split("digest=")[1].split()[0] for ln in p.stdout.splitlines() if "digest=" in ln]
+        doc = _json.load(open(path))
+        if dg:
+            doc["digest"] = dg[0]
+        else:
+            doc.pop("digest", None)
+        _json.dump(doc, open(path, "w"), indent=1, sort_keys=True)
+        ok, out = runner.fresh_replay(pid, path)
+        if ok:
+            return (fp, path, v0, len(by_fp[fp]), tries)
+        os.remove(path)
+    return None
 
 
 def write_evidence(pid, mod, a, base, agg, info, wall, reported, by_fp, kf_lines, spot_n):
